@@ -7,6 +7,12 @@ require (
 	github.com/crewjam/saml v0.0.0
 	github.com/russellhaering/goxmldsig v1.4.0
 	golang.org/x/crypto v0.33.0
+	gotest.tools v2.2.0+incompatible
+)
+
+require (
+	github.com/google/go-cmp v0.7.0 // indirect
+	github.com/pkg/errors v0.9.1 // indirect
 )
 
 require (
